@@ -29,6 +29,7 @@ if _LOG:
     _MODE = os.environ.get('VT_INJECT_MODE', 'record')
     _fd = os.open(_LOG, os.O_WRONLY | os.O_CREAT | os.O_APPEND, 0o644)
     _state = {'n': 0, 'busy': False}
+    _WATCH_READS = set(x for x in os.environ.get('VT_INJECT_WATCH_READS', '').split(',') if x)
     _real_open = builtins.open
 
     def _under(p):
@@ -68,6 +69,14 @@ if _LOG:
                     return
                 writing = (mode is not None and any(c in str(mode) for c in 'wax+')) or (mode is None and isinstance(flags, int) and flags & (os.O_WRONLY | os.O_RDWR | os.O_CREAT | os.O_TRUNC | os.O_APPEND))
                 if not writing:
+                    # reads are effects only for the files named in VT_INJECT_WATCH_READS (e.g. the legacy rules file a migration converts):
+                    # an I/O error while READING the source of a conversion must not end in "converted 0 rules"
+                    if os.path.basename(rel) in _WATCH_READS:
+                        act = _effect('open-r', rel)
+                        if act == 'error':
+                            raise OSError(errno.EIO, 'injected I/O error while reading', str(path))
+                        if act and act.startswith('crash'):
+                            os._exit(137)
                     return
                 act = _effect('open-a' if (mode and 'a' in str(mode)) else 'open-w', rel)
                 if act == 'error':
